@@ -89,6 +89,10 @@ class StarCraftAudioFilesMetadataIo:
     @classmethod
     def _calculate_ogg_file_duration_ms(cls, path_to_ogg_file_on_disk: str) -> int:
         audio = OggVorbis(path_to_ogg_file_on_disk)
-        duration = audio.info.length
-        duration_milliseconds = duration * 1000
-        return int(duration_milliseconds)
+        rate = audio.info.sample_rate
+        # the length is reported as samples / rate in floating point: int(length * 1000)
+        # falls just short of an exact value for some sample counts (89523 samples at
+        # 44100 Hz gave 2029 instead of 2030); recover the sample count, then whole
+        # milliseconds in integer arithmetic as for WAV files
+        samples = round(audio.info.length * rate)
+        return int(samples * 1000 // rate)
